@@ -14,6 +14,22 @@ class Boom(Exception):
     pass
 
 
+def spawn_without_context(coro_fn):
+    """start coro_fn() as a task that has NO current asphalt context (an empty contextvars.Context)"""
+    import contextvars
+    import sniffio
+    if sniffio.current_async_library() == "asyncio":
+        import asyncio
+        task = asyncio.get_running_loop().create_task(coro_fn(), context=contextvars.Context())
+        _keep.append(task)
+    else:
+        import trio
+        trio.lowlevel.spawn_system_task(coro_fn, context=contextvars.Context())
+
+
+_keep = []
+
+
 def execute(case):
     import anyio
     from anyio import CancelScope, Event, create_task_group, get_cancelled_exc_class, sleep
@@ -34,6 +50,7 @@ def execute(case):
         sig = {}
         selfended = []
         done = Event()
+        helper = {}
 
         def surfaced_of(e):
             out = []
@@ -130,7 +147,21 @@ def execute(case):
                                 else:
                                     sig[i] = Event()
                                     log(ev="svc.start", k=i, action=it["action"])
-                                    if i % 2:
+                                    if (i + case.get("seed", 0)) % 3 == 0:
+                                        # the method is called on the owning context from a task whose current context is another one (none at all)
+                                        started = Event()
+                                        box = []
+
+                                        async def foreign(i=i, it=it):
+                                            try:
+                                                await ctx.start_service_task(svc_func(i, it["beh"]), f"svc{i}", teardown_action=action_of(i, it["action"]))
+                                            except Exception as e:  # noqa: BLE001
+                                                log(ev="unexpected", what="start_service_task:" + type(e).__name__)
+                                            finally:
+                                                started.set()
+                                        spawn_without_context(foreign)
+                                        await started.wait()
+                                    elif i % 2:
                                         await ctx.start_service_task(svc_func(i, it["beh"]), f"svc{i}", teardown_action=action_of(i, it["action"]))
                                     else:
                                         await start_service_task(svc_func(i, it["beh"]), f"svc{i}", teardown_action=action_of(i, it["action"]))
@@ -166,6 +197,7 @@ def execute(case):
                 done.set()
 
         async with create_task_group() as tg:
+            helper["tg"] = tg
             tg.start_soon(owner)
             steps = [("body" if a == 0 else a) for a in sched] + ["drain"] * 14
             for step in steps:
